@@ -182,7 +182,9 @@ static const char* vf_adv_name(int adv) {
   }
 }
 static long vf_os_in_call = 0;       /* OS calls since the current API call started (reset by the drivers at every call) */
+#ifndef VF_OS_RUNAWAY
 #define VF_OS_RUNAWAY 1500
+#endif
 static void vf_os_event(const char* call, void* addr, size_t len, const char* arg, int ok, int fixed) {
   if (vf_in_call && ++vf_os_in_call > VF_OS_RUNAWAY) vf_crash_handler(98);     /* one API call that keeps asking the OS without end: end the run with a crash event */
   if (!vf_os_log) return;
